@@ -428,6 +428,74 @@ func mkLoggerFormat(tty *os.File) *mc.Exec {
 	return &mc.Exec{Body: body, Check: check}
 }
 
+// ---- cron's printf loggers: what one logger logged does not shape another's lines ----
+
+type linesPrintf struct{ lines []string }
+
+func (p *linesPrintf) Printf(format string, args ...interface{}) {
+	p.lines = append(p.lines, fmt.Sprintf(format, args...))
+}
+
+// cronLoggerCalls are the calls of the observed logger; what an EARLIER, other
+// logger logged (call shapes 0..3 below) must not change them.
+func cronLoggerLines(first int) string {
+	other := cron.VerbosePrintfLogger(&linesPrintf{})
+	switch first {
+	case 1:
+		other.Info("msg", "dangling-value")
+	case 2:
+		other.Info("msg", "k", 1, "k2", 2)
+		other.Error(errors.New("e"), "msg", "dangling-value")
+	case 3:
+		other.Info("msg")
+		other.Error(errors.New("e"), "msg")
+	}
+	dst := &linesPrintf{}
+	lg := cron.VerbosePrintfLogger(dst)
+	lg.Info("start")
+	lg.Info("run", "job", 7)
+	lg.Info("odd", "dangling-value")
+	lg.Error(errors.New("boom"), "failed")
+	lg.Error(errors.New("boom"), "failed", "job", 7, "attempt", 2)
+	return strings.Join(dst.lines, " | ")
+}
+
+var cronLoggerAloneOnce sync.Once
+var cronLoggerAloneLines string
+
+func mkCronLoggers(first int) *mc.Exec {
+	var got string
+	body := func() { got = cronLoggerLines(first) }
+	check := func(e *mc.End) error {
+		cronLoggerAloneOnce.Do(func() {
+			cmd := exec.Command(os.Args[0], "-test.run=^TestCronLoggerAlone$")
+			cmd.Env = append(os.Environ(), "C08_CRONLOGGER_ALONE=1")
+			out, _ := cmd.CombinedOutput()
+			for _, l := range strings.Split(string(out), "\n") {
+				if r, ok := strings.CutPrefix(l, "ALONE:"); ok {
+					cronLoggerAloneLines = r
+				}
+			}
+		})
+		if cronLoggerAloneLines == "" {
+			return fmt.Errorf("machinery: no result from the child process")
+		}
+		if got != cronLoggerAloneLines {
+			return fmt.Errorf("[key=cron-logger-lines] after another cron logger logged (shape %d), an independent logger writes %q; alone it writes %q", first, got, cronLoggerAloneLines)
+		}
+		return nil
+	}
+	return &mc.Exec{Body: body, Check: check}
+}
+
+// TestCronLoggerAlone is the child side: the observed logger's lines in a fresh process.
+func TestCronLoggerAlone(t *testing.T) {
+	if os.Getenv("C08_CRONLOGGER_ALONE") == "" {
+		t.Skip("helper")
+	}
+	fmt.Println("ALONE:" + cronLoggerLines(0))
+}
+
 // ---- byte slice pools ----
 
 func base(b []byte) uintptr {
@@ -570,6 +638,8 @@ var cronJobs = []cronJob{
 	{"TZ=Asia/Tokyo @daily", false, false}, {"TZ=America/New_York @daily", false, false}, {"CRON_TZ=Europe/London @hourly", true, false},
 	{"TZ=Asia/Tokyo 30 4 * * *", false, false}, {"@weekly", false, false}, {"TZ=Pacific/Auckland @weekly", true, false}, {"@every 90m", false, false},
 	{"30 4 1 1 *", false, false}, {"30 4 1 1 *", false, true}, {"30 4 1 1 * *", true, false}, {"30 4 1 1 * *", false, false}, {"TZ=Asia/Tokyo 30 4 * * *", false, true},
+	// a spec one parser must refuse stays refused whoever asked before (unknown zone, bad field)
+	{"TZ=Nowhere/Land 30 4 * * *", false, false}, {"CRON_TZ=Nowhere/Land @daily", true, false}, {"61 4 * * *", false, false},
 }
 
 // cronAlone is the result of job i ALONE: in a process of its own, so that
@@ -587,7 +657,12 @@ func cronAlone(i int) string {
 	panic(fmt.Sprintf("cron job %d alone: no result (%v)\n%s", i, err, out))
 }
 
-func cronResult(j cronJob) string {
+func cronResult(j cronJob) (out string) {
+	defer func() {
+		if p := recover(); p != nil {
+			out = fmt.Sprintf("panic: %v", p)
+		}
+	}()
 	r, err := cronNext(j)
 	if err != nil {
 		return "error: " + err.Error()
@@ -671,6 +746,14 @@ func scenarios() []hx.Scenario {
 			Name: fmt.Sprintf("enc %v || %v || %v", ef, pair[0], pair[1]), Class: "enc/v1-shared-buffer-pool", Shards: 8,
 			Opts: mc.Options{Delay: true, MinBound: 2, Bound: 3, MaxSteps: 20000},
 			Mk:   func() *mc.Exec { return mkEnc(ef, pair[0], pair[1]) },
+		})
+	}
+	for first := 1; first <= 3; first++ {
+		first := first
+		out = append(out, hx.Scenario{
+			Name: fmt.Sprintf("cron-loggers after shape %d", first), Class: "cron-parsers",
+			Opts: mc.Options{Bound: 0, Delay: true},
+			Mk:   func() *mc.Exec { return mkCronLoggers(first) },
 		})
 	}
 	for _, names := range [][]string{{"x", "x"}, {"x", "y"}, {"x", "x", "y"}} {
